@@ -226,6 +226,24 @@ def run_case(ctx, kind, rng, idx):
                           'renumbered keeps %s, in-place keeps %s' % (k1, k2))
     except Exception as e:  # noqa
         ctx.crash('trim.variants.raised', e)
+    # the mapping survives its own save/load and read/write
+    if idx % 3 == 0:
+        import io
+        try:
+            m1, _ = tm.trim_disconnected(np.array(C), threshold=thr,
+                                         renumber_states=renumber)
+            buf = io.StringIO()
+            m1.write(buf)
+            buf.seek(0)
+            m2 = tm.TrimMapping.read(buf)
+            ctx.count('mapping_roundtrips')
+            if dict(m2.to_original) != dict(m1.to_original) or \
+                    dict(m2.to_mapped) != dict(m1.to_mapped) or not (m1 == m2):
+                ctx.violation('trim.mapping-roundtrip',
+                              'TrimMapping.write/read changed the mapping: %s '
+                              '-> %s' % (m1.to_original, m2.to_original))
+        except Exception as e:  # noqa
+            ctx.crash('trim.mapping-roundtrip.raised', e)
     # through the estimator (default threshold 1)
     if idx % 2 == 0:
         run_msm(ctx, rng, C)
